@@ -36,6 +36,11 @@ Static rules (DESIGN.md §C02, engine sa/tabchain.py):
  symmetric-operand  every matrix expression reaching cholesky / cho_factor / eigh in plans.py (through locals, list
                 appends and comprehensions; helper functions inlined) is invariant under exchanging the row and the
                 column broadcast of each vector it is built from
+ dispatch-siblings  the python functions of pyscf/sdmx.py and pyscf/sdmx_slow.py that select among the same C kernels
+                read the same settings attributes (an option one implementation dispatches on or refuses is not
+                silently ignored by another)
+ unit-vector    (shared with C06) `v[k] /= n`, n = sqrt(sum v[i]^2): guarded against n == 0 in functions reachable
+                from python in which n occurs in no other denominator
  delegate-forward  a function of settings.py / plans.py that delegates to a same-module function forwards
                 every parameter the two share, unless it uses it itself (get_cider_exponent_gga -> nspin)
  alpha-degree   units-of-measure: degree (in exponent units) of each integral relative to the `se`
@@ -1536,6 +1541,83 @@ def rule_symmetric_operand(chk):
 
 
 # ----------------------------------------------------------------------------------------------
+# dispatch-siblings: fast and reference generators dispatch on the same settings attributes
+# ----------------------------------------------------------------------------------------------
+SIBLING_FILES = ["ciderpress/pyscf/sdmx.py", "ciderpress/pyscf/sdmx_slow.py"]
+
+
+def _settings_reads(fn):
+    """names of settings attributes a function reads: <x>.settings.<a>, <s>.<a> with s bound to a settings object
+    (s = <x>.settings, or a tuple element called settings), getattr(<settings>, "<a>"[, default])"""
+    svars = set()
+    for n in pf.walk_no_nested(fn):
+        if isinstance(n, ast.Assign):
+            for t in n.targets:
+                if isinstance(t, ast.Name) and isinstance(n.value, ast.Attribute) and n.value.attr == "settings":
+                    svars.add(t.id)
+                if isinstance(t, ast.Tuple):
+                    for e in t.elts:
+                        if isinstance(e, ast.Name) and e.id == "settings":
+                            svars.add(e.id)
+    for a in fn.args.args + fn.args.kwonlyargs:
+        if a.arg == "settings":
+            svars.add(a.arg)
+
+    def is_settings(e):
+        return (isinstance(e, ast.Attribute) and e.attr == "settings") or (isinstance(e, ast.Name) and e.id in svars)
+
+    out = {}
+    for n in pf.walk_no_nested(fn):
+        if isinstance(n, ast.Attribute) and isinstance(n.ctx, ast.Load) and is_settings(n.value):
+            out.setdefault(n.attr, n)
+        if isinstance(n, ast.Call) and pf.call_name(n) in ("getattr", "hasattr") and len(n.args) >= 2 and is_settings(n.args[0]) \
+                and isinstance(n.args[1], ast.Constant) and isinstance(n.args[1].value, str):
+            out.setdefault(n.args[1].value, n)
+    return out
+
+
+def rule_dispatch_siblings(chk):
+    """functions of sdmx.py / sdmx_slow.py that select among the same C kernels (getattr(libcider, "SDMXcontract_*"))
+    are implementations of one dispatch: a settings attribute that one of them reads in order to choose (or refuse)
+    must be read by every other one -- otherwise that implementation silently ignores the option."""
+    disp = []  # (rel, fn, kernels, settings reads)
+    for rel in SIBLING_FILES:
+        mod = chk.tree.py(rel)
+        for fn in ast.walk(mod):
+            if not isinstance(fn, ast.FunctionDef):
+                continue
+            kernels = set()
+            for n in pf.walk_no_nested(fn):
+                if isinstance(n, ast.Assign) and _lib_func(n.value):
+                    kernels.add(_lib_func(n.value))
+            if len(kernels) >= 2:
+                disp.append((rel, fn, kernels, _settings_reads(fn)))
+    if len({d[0] for d in disp}) < 2:
+        raise core.AnalysisError("kernel dispatchers not found in both %s" % SIBLING_FILES)
+    n = 0
+    for i, (rel, fn, kernels, reads) in enumerate(disp):
+        sibs = [d for j, d in enumerate(disp) if j != i and len(d[2] & kernels) >= 2]
+        if not sibs:
+            continue
+        want = {}
+        for srel, sfn, sk, sr in sibs:
+            for a, node in sr.items():
+                want.setdefault(a, (srel, sfn.name))
+        for a, (srel, sname) in sorted(want.items()):
+            n += 1
+            inst = "%s:%s reads settings.%s (as %s:%s does)" % (rel, fn.name, a, srel, sname)
+            if a in reads:
+                chk.ok("dispatch-siblings", inst)
+            else:
+                chk.violation("dispatch-siblings", rel, fn.name, "settings.%s is never read" % a, fn.lineno,
+                              "%s selects among the kernels %s like %s:%s, which also consults settings.%s to choose or to "
+                              "refuse; %s never looks at it, so a settings object with a non-default %s is silently evaluated "
+                              "with the kernel of the default" % (fn.name, sorted(kernels & sibs[0][2])[:3], srel, sname, a,
+                                                                fn.name, a), instance=inst)
+    chk.count("sibling dispatch attributes", n)
+
+
+# ----------------------------------------------------------------------------------------------
 # delegation: a wrapper forwards the parameters it shares with the function it delegates to
 # ----------------------------------------------------------------------------------------------
 DELEGATE_FILES = [SETTINGS, PLANS]
@@ -1646,6 +1728,20 @@ def _analyse_own(chk):
     chk.guard(_t)
     chk.guard(rule_ueg, py)
     chk.guard(rule_delegate_forward)
+    chk.guard(rule_dispatch_siblings)
+    chk.rule("dispatch-siblings", "fast and reference SDMX dispatchers over the same C kernels read the same settings attributes")
+    chk.floor("dispatch-siblings", 3, "3 dispatchers x 2 attributes today")
+
+    def _unit(c):
+        # conv_interpolation.c / fast_sdmx.c are C02 anchors too; the rule lives in checks/c06.py
+        import importlib
+        c06 = importlib.import_module("checks.c06")
+        tus2 = cfacts.load_all(c.tree, [c06.C_INTERP, c06.C_SDMX], jobs=2)
+        c06.rule_unit_vector(c, tus2)
+
+    chk.guard(_unit)
+    chk.rule("unit-vector", "a vector divided by its own norm is guarded against norm == 0 (shared with C06)")
+    chk.floor("unit-vector", 6, "12 today")
     chk.guard(rule_result_used)
     chk.guard(rule_symmetric_operand)
     chk.rule("result-used", "a same-module function that only returns its result is not called as a statement")
@@ -1778,6 +1874,8 @@ def mutants(tree):
         Mutant("generator stores the l=1 entries without checking lmax", cfacts.LIB + "/mod_cider/sph_harm.c",
                "    if (buf.lmax < 1) {\n        return; // nlm == 1: there is no room for the l=1 entries\n    }\n    ylm[1 * lp1 + 0]",
                "    ylm[1 * lp1 + 0]", expect="sph-bounds"),
+        Mutant("fast SDMX dispatcher ignores settings.mode", "ciderpress/pyscf/sdmx.py", fn=_drop_mode_check, expect="dispatch-siblings"),
+        Mutant("SDMXylm_loop normalises without a guard", cfacts.LIB + "/mod_cider/fast_sdmx.c", fn=_unguard_sdmx, expect="unit-vector"),
         Mutant("knot-index scaling off by one", PLANS, "di[:] *= (self._spline_size - 1) / (self.nalpha - 1)",
                "di[:] *= self._spline_size / self.nalpha", expect="inverse-pair"),
         Mutant("knot layout off by one", PLANS, "interp_indexes * (self.nalpha - 1) / (self._spline_size - 1)",
@@ -1793,6 +1891,30 @@ def mutants(tree):
         Mutant("etb index uses lambd instead of log(lambd)", F_COEFS, "double ratio = 1.0 / log(lambd);", "double ratio = 1.0 / lambd;",
                expect="inverse-pair"),
     ]
+
+
+def _drop_mode_check(text):
+    a = '        if getattr(plan.settings, "mode", "smooth") == "exact":'
+    i = text.find(a)
+    if i < 0:
+        return None
+    j = text.find("            )\n", i)
+    if j < 0:
+        return None
+    return text[:i] + text[j + len("            )\n"):]
+
+
+def _unguard_sdmx(text):
+    a = "                    if (rnorm > 0) {\n"
+    i = text.find(a)
+    if i < 0:
+        return None
+    j = text.find("                    }\n", text.find("} else {", i))
+    if j < 0:
+        return None
+    new = ("                    norm_rvec[0] /= rnorm;\n                    norm_rvec[1] /= rnorm;\n"
+           "                    norm_rvec[2] /= rnorm;\n")
+    return text[:i] + new + text[j + len("                    }\n"):]
 
 
 def _gga_delegates(text):
